@@ -14,7 +14,7 @@ def one(seed):
     try:
         if sh(f"git -C {wt} apply {patch}").returncode: return seed, "NOAPPLY", {}
         os.makedirs(vd); shutil.copy(f"{V}/known_findings.json", vd)
-        env = dict(os.environ, GOFLAGS="-mod=mod", GOPROXY="off", GOSUMDB="off", GOTOOLCHAIN="local", GOMAXPROCS="4")
+        env = dict(os.environ, GOFLAGS="-mod=mod", GOPROXY="off", GOSUMDB="off", GOTOOLCHAIN="local", GOMAXPROCS=os.environ.get("PEG_GOMAXPROCS", "4"))
         b = sh(f"cd {wt} && go build ./... 2>&1 | grep -v sqlite | grep '\\.go:' | head -2", env=env).stdout.strip()
         out = sh(f"{V}/bin/pegcheck -repo {wt} -verif {vd} -property all", env=env).stdout
         res = {}; viols = {}
@@ -37,7 +37,7 @@ def main():
     results = {}
     if len(sys.argv) > 1 and os.path.exists(f"{V}/seeded/MATRIX.json"):
         results = json.load(open(f"{V}/seeded/MATRIX.json"))  # partial run: keep the other rows
-    with cf.ThreadPoolExecutor(max_workers=4) as ex:
+    with cf.ThreadPoolExecutor(max_workers=int(os.environ.get("WORKERS", "4"))) as ex:
         for seed, status, fired in ex.map(one, seeds):
             results[seed] = dict(status=status, fired=fired)
             own = seed.split("-")[0]
